@@ -1,5 +1,6 @@
 CONSTANTS
   MaxOps = 4
+  Closed = FALSE
   MaxSyms = 3
 SPECIFICATION Spec
 INVARIANTS LatestWins Innermost EmitDone
